@@ -27,7 +27,7 @@ META = {
     "note": "Cases whose generated file set depends on the directory contents (C++ user class files turn into *.template when present) are "
             "skipped for the iff-oracle (counted); strace must be available (it is in this sandbox).",
 }
-FLOORS = {"quick": (150, 30), "thorough": (1500, 200)}
+FLOORS = {"quick": (150, 20), "thorough": (1500, 150)}
 
 WRITE_FLAGS = ("O_WRONLY", "O_RDWR", "O_CREAT", "O_TRUNC", "O_APPEND")
 MUTATING = ("rename", "renameat", "renameat2", "unlink", "unlinkat", "mkdir", "mkdirat", "rmdir", "link", "linkat", "symlink",
@@ -123,20 +123,28 @@ def _scan_trace(path, scope):
 
 
 class Model:
-    def __init__(self, pristine):
+    def __init__(self, pristine, unstable=()):
         self.want = dict(pristine)     # generated name -> bytes
         self.cur = dict(pristine)      # files now present below out (generated names only)
+        self.unstable = set(unstable)  # names whose bytes differ from one generation to the next (C15's business)
 
     def expect(self):
-        """('ok' | 'missing' | 'crlf' | 'stale', file): first problem in generated-name order."""
+        """('ok' | 'missing' | 'crlf' | 'stale' | 'unknown', file): first problem in generated-name order.
+        Files the generator itself does not reproduce byte for byte make a passing check undecidable ('unknown')."""
+        uncertain = False
         for name in sorted(self.want, key=lambda s: s.encode("utf8")):
             if name not in self.cur:
                 return "missing", name
+            if name in self.unstable:
+                uncertain = True
+                continue
             if self.cur[name] != self.want[name]:
+                if uncertain:
+                    return "stale", name
                 if _crlf_only(self.cur[name], self.want[name]):
                     return "crlf", name
                 return "stale", name
-        return "ok", None
+        return ("unknown" if uncertain else "ok"), None
 
 
 def _history(case, work, rng, nops):
@@ -146,7 +154,7 @@ def _history(case, work, rng, nops):
     cwd = os.path.join(work, "cwd")
     os.makedirs(cwd)
     base = [case["backend"], case["src"], "--out-dir", out] + (["--world", "%" + case["world"]] if case.get("world") else []) + case["flags"]
-    rc, so, se = cli.run_cli(base, cwd=cwd, timeout=300)
+    rc, so, se = cli.run_cli(base, cwd=cwd, timeout=300, env_extra={"RUST_BACKTRACE": "0"})
     res["processes"] += 1
     if rc != 0:
         res["skipped"] = "generation failed"
@@ -156,15 +164,22 @@ def _history(case, work, rng, nops):
         res["skipped"] = "no files generated"
         return res
     # is the generated file set independent of the directory contents?
-    rc, so, se = cli.run_cli(base, cwd=cwd, timeout=300)
+    rc, so, se = cli.run_cli(base, cwd=cwd, timeout=300, env_extra={"RUST_BACKTRACE": "0"})
     res["processes"] += 1
     again = _read_tree(out)
-    if rc != 0 or again != pristine:
-        res["skipped"] = "output depends on the directory contents"
+    if rc != 0 or set(again) != set(pristine):
+        res["skipped"] = "output file set depends on the directory contents"
         res["state_dependent"] = sorted(set(again) ^ set(pristine))[:4]
         return res
-    model = Model(pristine)
-    names = sorted(pristine)
+    unstable = sorted(n for n in pristine if again[n] != pristine[n])
+    if unstable:
+        res["unstable_files"] = unstable[:4]
+    model = Model(pristine, unstable)
+    # mutations only touch files the generator reproduces byte for byte
+    names = sorted(n for n in pristine if n not in unstable)
+    if not names:
+        res["skipped"] = "every output file is unstable"
+        return res
     text_names = [n for n in names if _is_text(pristine[n]) and b"\n" in pristine[n] and b"\r" not in pristine[n]]
     subdirs = sorted({n.split("/")[0] for n in names if "/" in n})
     strace = shutil.which("strace")
@@ -234,7 +249,7 @@ def _history(case, work, rng, nops):
                 write(n, model.want[n])
                 model.cur[n] = model.want[n]
         elif op == "restore-all":
-            for n in names:
+            for n in sorted(pristine):
                 if model.cur.get(n) != model.want[n]:
                     write(n, model.want[n])
                     model.cur[n] = model.want[n]
@@ -254,6 +269,7 @@ def _history(case, work, rng, nops):
         exe = cli.build_cli()
         env = dict(os.environ)
         env.pop("RUST_LOG", None)
+        env["RUST_BACKTRACE"] = "0"
         cmd = [exe] + base + ["--check"]
         if strace:
             cmd = [strace, "-f", "-s", "4096", "-e", "trace=%file", "-o", trace] + cmd
@@ -268,13 +284,16 @@ def _history(case, work, rng, nops):
         ctx = "after [%s] (step %d, op %s): model says %s%s; rc=%s stderr tail: %s" % (
             ",".join(seq[: step + 1]), step, applied, exp, (" at " + efile) if efile else "", rc, se.strip()[-300:])
         b = case["backend"]
-        if exp == "ok" and rc != 0:
+        if exp == "unknown":
+            pass
+        elif exp == "ok" and rc != 0:
             res["violations"].append(("check:fails-on-up-to-date-output", ctx))
         elif exp != "ok" and rc == 0:
-            res["violations"].append(("check:succeeds-on-%s-file" % {"missing": "missing", "crlf": "crlf-different", "stale": "different"}[exp], ctx))
+            res["violations"].append(("check:succeeds-on-%s-file" % {"missing": "missing", "crlf": "crlf-different", "stale": "different"}.get(exp, exp), ctx))
         elif exp == "crlf":
             # the only kind of difference anywhere?  then the message must say so
-            only_crlf = all(model.cur.get(n) == model.want[n] or (n in model.cur and _crlf_only(model.cur[n], model.want[n])) for n in names)
+            only_crlf = not model.unstable and all(
+                model.cur.get(n) == model.want[n] or (n in model.cur and _crlf_only(model.cur[n], model.want[n])) for n in names)
             if only_crlf and "differs only in line endings" not in se:
                 res["violations"].append(("check:crlf-not-reported-as-line-endings", ctx))
         elif exp == "stale" and "differs only in line endings" in se:
@@ -337,7 +356,7 @@ def run(tier, seed, replay):
             cases.append({"backend": r["backend"], "variant": r.get("variant", "default"), "flags": r.get("flags", []), "src": src,
                           "world": r.get("world"), "input": r.get("input", "replay"), "hseed": r.get("hseed", 0)})
         else:
-            n_random = 120 if thorough else 10
+            n_random = 120 if thorough else 16
             wdir = os.path.join(scratch, "worlds")
             idx_p = os.path.join(scratch, "worlds.json")
             _tool(bindir, ["worlds", "--seed", str(seed), "--n", str(n_random), "--profile", "mixed", "--dir", wdir, "--out", idx_p],
@@ -346,7 +365,7 @@ def run(tier, seed, replay):
                 idx = json.load(f)
             inputs = [{"src": w["path"], "world": None, "input": "random:" + os.path.basename(w["path"]), "wit": True} for w in idx["worlds"]]
             corpus = [c for c in table["corpus"] if c.get("world")]
-            n_corpus = 40 if thorough else 5
+            n_corpus = 40 if thorough else 8
             pool = list(corpus)
             while pool and n_corpus > 0:
                 c = pool.pop(rng.below(len(pool)))
@@ -395,6 +414,8 @@ def run(tier, seed, replay):
                     if not res["violations"]:
                         continue
                 stats["histories"] += 1
+                if res.get("unstable_files"):
+                    stats["histories_with_unstable_files"] = stats.get("histories_with_unstable_files", 0) + 1
                 pb["histories"] += 1
                 pb["checks"] += res["checks"]
                 for k, v in res["ops"].items():
@@ -402,7 +423,7 @@ def run(tier, seed, replay):
                 for k, v in res["outcomes"].items():
                     outcomes[k] = outcomes.get(k, 0) + v
                 rep.evaluations += res["checks"]
-                if res["outcomes"].get("ok") and len(res["outcomes"]) > 1:
+                if (res["outcomes"].get("ok") or res["outcomes"].get("unknown")) and len(res["outcomes"]) > 1:
                     rep.distinct.add(vcommon.stable_hash([c["input"], c["backend"], c["variant"]]))
                 if res.get("trace_missing"):
                     rep.inconc("strace produced no trace file", res["trace_missing"])
